@@ -31,5 +31,5 @@ def main(tier, replay=None):
     res.assumptions = ["virtual kernel (appendix A)", "mbox is documented as not crash-proof: machine crashes are not judged for mbox", "a failing flock() is outside the property (delivery proceeds unlocked, as documented 'if possible')"]
     res.require_nonzero("evaluations", "maildir_files_checked", "machine_crashes", "process_kills", "deliveries_ok", "deliveries_deferred", "timers_expired")
     res.notes.append("virtual kernel vs Linux: %d operation sequences compared before this run, all agree (bin/conformance)" % nconf)
-    lib_conformance(res, rundir("C12lib"), plain_src, ['io', 'num', 'seek'], tier, asan=False)
+    lib_conformance(res, rundir("C12lib"), plain_src, ['io', 'num', 'seek', 'date'], tier, asan=False)
     return res.finish()
